@@ -16,7 +16,14 @@
 //	            acquired and shot by gun j mod ninst, sequentially; observation per entry.
 //	    mode e: the same provider and gun factory under the real engine (startup once(ninst),
 //	            unlimited rps); observation = samples sorted by tag + calls sorted.
-//	scen <ninst>[r] <timeout_ms> <order> <users> <calls> <scenarios>      (r: reflect_port as above)
+//	    optional trailing fields (after the entries), any order:
+//	      rm=<meta>   the gun option reflect_metadata (metadata of the REFLECTION request of warm-up; it is
+//	                  not the metadata of any ammo entry and must not reach a call)
+//	      fl=<plan>   the target's ANSWERS (not pandora's to choose): p<c>.<c>.…  = the i-th unary call the
+//	                  target receives in this case is answered with gRPC status c without running the handler
+//	                  (0 = handler);  h<salt>.<permille> = content-keyed (engine mode): a call is answered with
+//	                  an injected status chosen by a hash of salt+method+message+metadata in permille/1000 of the cases
+//	scen <ninst>[r] <timeout_ms> <order> <users> <calls> <scenarios> [rm=<meta>] [fl=<plan>]   (r: reflect_port as above)
 //	    order     = instance index per shot (comma list); shot j: instance order[j] acquires the
 //	                next scenario ammo from the real grpc/scenario provider and shoots it
 //	    users     = tokhex:idhex,…   (json variable source "users", consumed by [next])
@@ -29,12 +36,15 @@
 //
 // Observation (direct and scen): one item per shot-step  code;call  where call = - or
 // methodhex/msg/md/timeout_s/status (a20.Call). Scenario: steps of a shot joined by '|', shots by '#'.
+// Every observation ends with  refl=<md>  = the distinct application metadata sets seen on reflection streams
+// (target and side-car) during the case, canonical, joined by '+' ("none": no reflection stream seen).
 package main
 
 import (
 	"context"
 	"encoding/json"
 	"fmt"
+	"hash/fnv"
 	"sort"
 	"strconv"
 	"strings"
@@ -178,10 +188,84 @@ func sidePort() int64 {
 }
 
 func sideNote(s string) string {
+	s = reflNote(s)
 	if n := len(side.Drain()); n > 0 {
 		return s + fmt.Sprintf(" sidecar=%d", n)
 	}
 	return s
+}
+
+// trailing options of a case: rm=<meta>, fl=<plan>
+func caseOpts(f []string) (rm map[string]string, fl string) {
+	for _, x := range f {
+		switch {
+		case strings.HasPrefix(x, "rm="):
+			rm = map[string]string{}
+			if x[3:] != "-" {
+				for _, kv := range strings.Split(x[3:], ",") {
+					p := strings.SplitN(kv, "=", 2)
+					rm[string(vh.UnHex(p[0]))] = string(vh.UnHex(p[1]))
+				}
+			}
+		case strings.HasPrefix(x, "fl="):
+			fl = x[3:]
+		}
+	}
+	return
+}
+
+var faultCodes = []uint32{14, 14, 14, 14, 1, 2, 3, 4, 5, 6, 7, 8, 8, 9, 10, 11, 12, 13, 13, 15, 16}
+
+// armFaults installs the answers of the target for this case; the returned function removes them.
+func armFaults(fl string) func() {
+	switch {
+	case strings.HasPrefix(fl, "p"):
+		var plan []uint32
+		for _, c := range strings.Split(fl[1:], ".") {
+			k, _ := strconv.Atoi(c)
+			plan = append(plan, uint32(k))
+		}
+		srv.SetPlan(plan)
+	case strings.HasPrefix(fl, "h"):
+		x := strings.Split(fl[1:], ".")
+		salt := x[0]
+		permille, _ := strconv.Atoi(x[1])
+		srv.SetFaultFn(func(c a20.Call) uint32 {
+			h := fnv.New32a()
+			_, _ = h.Write([]byte(salt + "/" + c.Method + "/" + c.Msg + "/" + c.MD))
+			v := h.Sum32()
+			if int(v%1000) >= permille {
+				return 0
+			}
+			return faultCodes[int(v/1000)%len(faultCodes)]
+		})
+	}
+	return func() { srv.SetPlan(nil); srv.SetFaultFn(nil) }
+}
+
+func drainRefl() {
+	srv.DrainReflMD()
+	side.DrainReflMD()
+}
+
+// reflNote appends what the reflection streams of this case carried.
+func reflNote(s string) string {
+	set := map[string]bool{}
+	for _, x := range srv.DrainReflMD() {
+		set[x] = true
+	}
+	for _, x := range side.DrainReflMD() {
+		set[x] = true
+	}
+	var l []string
+	for x := range set {
+		l = append(l, x)
+	}
+	sort.Strings(l)
+	if len(l) == 0 {
+		return s + " refl=none"
+	}
+	return s + " refl=" + strings.Join(l, "+")
 }
 
 func gunConf(shared bool, clients int, timeoutMs int, reflect bool) grpcgun.GunConfig {
@@ -213,12 +297,16 @@ func runJSON(f []string) string {
 	_ = afero.WriteFile(fs, name, []byte(data.String()), 0o644)
 	defer fs.Remove(name)
 	conf := gunConf(shared, clients, tmo, reflect)
+	rm, fl := caseOpts(f[7+n:])
+	conf.ReflectMetadata = rm
 	side.Drain()
+	drainRefl()
 	prov := grpcjson.NewProvider(fs, grpcjson.Config{File: name, Passes: 1})
 	log := zap.NewNop()
 	srv.Drain()
 
 	if mode == "e" {
+		defer armFaults(fl)()
 		ag := &recAggr{}
 		eng := engine.New(log, engine.Metrics{Request: &monitoring.Counter{}, Response: &monitoring.Counter{},
 			InstanceStart: &monitoring.Counter{}, InstanceFinish: &monitoring.Counter{}},
@@ -274,6 +362,8 @@ func runJSON(f []string) string {
 			return "binderr"
 		}
 	}
+	srv.Drain()
+	defer armFaults(fl)()
 	var out []string
 	for j := 0; ; j++ {
 		am, ok := prov.Acquire()
@@ -381,7 +471,10 @@ func runScen(f []string) string {
 	if reflect {
 		gconf.ReflectPort = sidePort()
 	}
+	rm, fl := caseOpts(f[7:])
+	gconf.ReflectMetadata = rm
 	side.Drain()
+	drainRefl()
 	wg := grpcscen.NewGun(gconf)
 	sd, err := wg.WarmUp(&warmup.Options{Log: log, Ctx: ctx})
 	if err != nil {
@@ -396,6 +489,7 @@ func runScen(f []string) string {
 		}
 	}
 	srv.Drain()
+	defer armFaults(fl)()
 	var shots []string
 	for _, inst := range order {
 		am, ok := prov.Acquire()
